@@ -35,7 +35,7 @@ def make_cases(rng, tier, budget):
         else:
             h.append(["mutate", [["corrupt", k]]])
             h.append(["build", tail[1], tail[2]])
-            h.append(["clean", rng.choice([None, "n"])])
+            h.append(["clean", rng.choice([None, "n", "", "other"])])
         out.append(c)
     return out
 
@@ -120,6 +120,19 @@ def typed_calls(rep):
             ("build_versioned versions list", lambda: FileBuilder.build_versioned(cache, "n", [], main)),
             ("build_versioned versions non-JSON", lambda: FileBuilder.build_versioned(cache, "n", {"f": object()}, main)),
             ("clean name int", lambda: FileBuilder.clean(cache, 5)),
+            # falsy values are not "no name given": None is
+            ("clean name empty string", lambda: FileBuilder.clean(cache, "")),
+            ("clean name 0", lambda: FileBuilder.clean(cache, 0)),
+            ("clean name False", lambda: FileBuilder.clean(cache, False)),
+            ("clean name 0.0", lambda: FileBuilder.clean(cache, 0.0)),
+            ("clean name empty bytes", lambda: FileBuilder.clean(cache, b"")),
+            ("clean name empty list", lambda: FileBuilder.clean(cache, [])),
+            ("clean name empty dict", lambda: FileBuilder.clean(cache, {})),
+            ("build name empty string", lambda: FileBuilder.build(cache, "", main)),
+            ("build name None", lambda: FileBuilder.build(cache, None, main)),
+            ("build name False", lambda: FileBuilder.build(cache, False, main)),
+            ("build_versioned versions None", lambda: FileBuilder.build_versioned(cache, "n", None, main)),
+            ("build_versioned versions 0", lambda: FileBuilder.build_versioned(cache, "n", 0, main)),
             ("clean cache filename None", lambda: FileBuilder.clean(None, "n")),
             ("build other name", lambda: FileBuilder.build(cache, "other", main)),
             ("clean other name", lambda: FileBuilder.clean(cache, "other")),
